@@ -61,11 +61,11 @@ Record chan_state := mkChan {
   ch_sender_sync : vv; ch_recv_sync : list vv;
   ch_last_try_recv : option access }.
 
-Inductive refmod := RMInc | RMDec.
 Record arc_state := mkArc {
   arc_cnt : nat; arc_sync : vv;
-  arc_last_inc : option access; arc_last_dec : option access;
-  arc_last_inspect : option access; arc_last_mod : option refmod }.
+  arc_last_inc : list (option access);      (* last clone of each thread *)
+  arc_last_dec : option access;
+  arc_last_inspect : list (option access)   (* last inspection of each thread *) }.
 
 Record cell_state := mkCell {
   ce_reading : nat; ce_writing : bool; ce_read : vv; ce_write : vv }.
@@ -131,16 +131,11 @@ Fixpoint flatten_opts {A} (l : list (option A)) : list A :=
 Definition last_dependent_accesses (o : object) (act : action) : option (list access) :=
   match o with
   | OArc s =>
-      Some (opt_list
-           match act with
-           | ARefInc => arc_last_inspect s
-           | ARefDec => arc_last_dec s
-           | _ => match arc_last_mod s with
-                  | Some RMInc => arc_last_inc s
-                  | Some RMDec => arc_last_dec s
-                  | None => None
-                  end
-           end)
+      Some match act with
+           | ARefInc => flatten_opts (arc_last_inspect s)
+           | ARefDec => opt_list (arc_last_dec s) ++ flatten_opts (arc_last_inspect s)
+           | _ => opt_list (arc_last_dec s) ++ flatten_opts (arc_last_inc s)
+           end
   | OAtomic s =>
       Some (opt_list (at_last_nonload s) ++
             match act with ALoad => [] | _ => flatten_opts (at_last_loads s) end)
@@ -162,9 +157,9 @@ Definition set_last_access (o : object) (act : action) (tid : nat) (path_id : na
   match o with
   | OArc s =>
       match act with
-      | ARefInc => OArc (mkArc (arc_cnt s) (arc_sync s) acc (arc_last_dec s) (arc_last_inspect s) (Some RMInc))
-      | ARefDec => OArc (mkArc (arc_cnt s) (arc_sync s) (arc_last_inc s) acc (arc_last_inspect s) (Some RMDec))
-      | _ => OArc (mkArc (arc_cnt s) (arc_sync s) (arc_last_inc s) (arc_last_dec s) acc (arc_last_mod s))
+      | ARefInc => OArc (mkArc (arc_cnt s) (arc_sync s) (list_set (arc_last_inc s) tid acc) (arc_last_dec s) (arc_last_inspect s))
+      | ARefDec => OArc (mkArc (arc_cnt s) (arc_sync s) (arc_last_inc s) acc (arc_last_inspect s))
+      | _ => OArc (mkArc (arc_cnt s) (arc_sync s) (arc_last_inc s) (arc_last_dec s) (list_set (arc_last_inspect s) tid acc))
       end
   | OAtomic s =>
       OAtomic (mkAtomic (at_loaded s) (at_unsync_loaded s) (at_stored s) (at_unsync_mut s)
